@@ -1,4 +1,5 @@
 import Props.C13
+import Lemmas.Rerun
 /-!
 # C14 — failures, skips and cancellation stop dependents and are fully reported
 -/
@@ -114,6 +115,37 @@ example : ((accept demoCfg initSched
 example : ((accept demoCfg initSched
     [.pickReal 1, .semAcq 1, .lockAcq 1, .enter 1 0, .leave 1 0 .skipParents, .recv 1 .skipParents, .semRel 1,
      .pickSkip 2, .recv 2 .ok, .exit] 0).toOption.map (·.errs)) = some [] := by
+  decide
+
+/-! ## a later `Run` of the same graph
+
+`Lemmas/Rerun.lean`: `rerun s` is the state in which a later `Run` of the same `*Graph` enters its loop
+(statuses and collected errors kept; channels, semaphore and the cancellation flag new), `secondRunEarly`
+its first statement (`if len(g.errs.Errors) != 0 { return g.errs }`). -/
+
+/-- **A second run starts nothing** (`second_run_starts_nothing`), restated for reachable states: once a
+`Run` has returned, a later `Run` of the same graph can pick no vertex, receive nothing, run no
+goroutine step; only the end of the loop (and, in the model, the cancellation) is possible. -/
+theorem second_run_quiet (c : Cfg) (s s' : Sched) (ev : Event) (hr : Reachable c s) (hx : s.exited = true)
+    (hs : step? c (rerun s) ev = some s') : ev = .exit ∨ ev = .cancel :=
+  second_run_starts_nothing c s s' ev (reachable_exitInv c s hr hx) hs
+
+/-- **Same verdict** (`second_run_same_verdict`): a failed run stays failed - a later `Run` returns the
+same non-empty error list at once; a run that returned nil is followed by a run that starts nothing and
+returns nil. -/
+theorem second_run_verdict (c : Cfg) (s : Sched) (hr : Reachable c s) (hx : s.exited = true) :
+    (s.errs ≠ [] → secondRunEarly s = some s.errs) ∧
+    (s.errs = [] → secondRunEarly s = none ∧
+      ∃ s', step? c (rerun s) .exit = some s' ∧ s'.errs = [] ∧ s'.exited = true) := by
+  have h := second_run_same_verdict c s hr hx
+  exact ⟨h.1, fun he => ⟨(h.2 he).1, (h.2 he).2.2⟩⟩
+
+/-! Non-vacuity: the failed run of the example above has exited with two entries; a second `Run`
+returns them at once. -/
+example : ((accept demoCfg initSched
+    [.pickReal 1, .semAcq 1, .lockAcq 1, .enter 1 0, .leave 1 0 .err, .recv 1 .err, .semRel 1,
+     .pickErr 2, .recv 2 .taskSkipped, .exit] 0).toOption.map fun s => (s.exited, secondRunEarly s)) =
+    some (true, some [.task 1, .skipped 2]) := by
   decide
 
 end GoModel.Dag
